@@ -319,8 +319,14 @@ def r4_move_conversion(repo=None):
         r.ok("%s:%s %s" % (m.rel, disp[0].line, q), "events matching neither path are dropped before the final dispatch")
     # both paths are matched against the handler's regexes (directly or through a helper)
     text = norm(ast.unparse(f))
-    if ".regexes" in text and ".match(" in text and "event.src_path" in text and "event.dest_path" in text:
+    reach_text = text + " " + " ".join(norm(ast.unparse(h_)) for h_, c_, b_ in pyutil.local_helpers(m, m.fn(q), depth=3))
+    passed = all(any(isinstance(c_, ast.Call) and any(norm(ast.unparse(a_)) == pth for a_ in list(c_.args) + [k_.value for k_ in c_.keywords])
+                     for c_ in ast.walk(f)) for pth in ("event.src_path", "event.dest_path"))
+    if ".regexes" in reach_text and ".match(" in reach_text and "event.src_path" in text and "event.dest_path" in text:
         r.ok("%s:%s %s" % (m.rel, f.lineno, q), "src_path and dest_path are each matched against the registered regexes")
+    elif passed:
+        raise AnalysisError("%s: event.src_path / event.dest_path are handed to calls, but no loop over the registered regexes was found "
+                            "in the functions reached from dispatch (3 levels)" % q)
     else:
         r.violation(m.rel, q, "matching", "source and destination are not matched against the registered regex list", line=f.lineno)
     r.guard(4)
